@@ -268,6 +268,7 @@ class Ctx:
         translation tie props/Prop_Tie_Sift.v); the counts and lists of all of them are accumulated."""
         ok = self._proof_one(prop_file or 'props/Prop_%s.v' % self.pid)
         main = dict(self.proof_info)
+        self.tie_files = list(extra)
         for f in extra:
             ok = self._proof_one(f) and ok
             cur = self.proof_info
@@ -282,6 +283,16 @@ class Ctx:
                     cur[k] = main[k]
             main = dict(cur)
         return ok
+
+    def _trusted_base(self):
+        tb = list(TRUSTED_BASE)
+        ties = getattr(self, 'tie_files', [])
+        if ties:
+            tb[1] = ('hand-written Gallina model under coq/model tied to %s by differential execution (harness/props) AND, for the functions '
+                     'named in DESIGN.md 10.5/10.6, by translation: %s re-checked in this run against programs regenerated from the tree under '
+                     'test by the fail-closed ast translator harness/gen_skeleton.py (+ drivers harness/gen_skel_*.py); the translator and the '
+                     'primitive mapping tables coq/model/SkelPrims_*.v / SkeletonPrims.v are trusted as read' % (REPO, ', '.join(ties)))
+        return tb
 
     def _proof_one(self, prop_file):
         info = self.proof_info
@@ -526,7 +537,7 @@ class Ctx:
         cov = dict(
             obligations=self.proof_info['obligations'], discharged=self.proof_info['discharged'],
             checker_cmd=self.proof_info.get('checker_cmd', ''),
-            trusted_base=TRUSTED_BASE + ['Print Assumptions: ' + '; '.join(self.proof_info['assumptions'])],
+            trusted_base=self._trusted_base() + ['Print Assumptions: ' + '; '.join(self.proof_info['assumptions'])],
             evaluations=self.evaluations, distinct_nontrivial=len(self.nontrivial), rule=self.rule,
             samples=self.samples or ['(none)'], path_histogram=dict(self.hist),
             exact_comparisons=self.exact_cmp, tolerance_comparisons=self.tol_cmp,
